@@ -159,6 +159,11 @@ fn chars_job(len: usize, job: usize, jobs: usize) -> Stats {
     st
 }
 
+fn it_large(st: &mut Stats) -> bool {
+    st.bump("large_texts");
+    true
+}
+
 fn random_job(ctx: &Ctx, job: usize, iters: u64) -> Stats {
     let mut st = Stats::new();
     let mut rng = Rng::stream(ctx.seed, "C08.random", job as u64);
@@ -183,6 +188,23 @@ fn random_job(ctx: &Ctx, job: usize, iters: u64) -> Stats {
                 st.bump("mutated_texts");
             }
         }
+    }
+    // texts longer than any I/O buffer (8 KiB .. 60 KiB): padding (comments, whitespace, separator lines)
+    // before, inside and after a formula; the tree must still be the tree of the whole text
+    for _ in 0..(iters / 60).max(4) {
+        let cfg = GenCfg::simple(&gen::PLAIN_NAMES[..4], 4);
+        let toks = gen::render_tokens(&gen::gen_ast(&mut rng, &cfg), &mut rng, Style::Plain);
+        let big = 8_000 + rng.usize(50_000);
+        let pad = match rng.below(4) {
+            0 => format!(" \"{}\" ", "c".repeat(big)),
+            1 => " \n".repeat(big / 2),
+            2 => format!("\n{}", "\"line\" ;\n".repeat(big / 10)),
+            _ => format!(" {} ", "\t".repeat(big)),
+        };
+        let cut = rng.usize(toks.len() + 1);
+        let text = format!("{}{}{}", toks[..cut].join(" "), pad, toks[cut..].join(" "));
+        let tok_too = it_large(&mut st);
+        check_text(&mut st, &text, tok_too, "large-text");
     }
     // splices of two formulas and token soups
     for _ in 0..iters / 4 {
@@ -251,7 +273,7 @@ pub fn run(ctx: &Ctx) -> (Stats, Spec) {
         check_text(&mut st, t, true, "negation-and-edge-cases");
     }
     let spec = Spec {
-        rule: "exhaustive token sequences (full 33-kind alphabet to length 4 [quick] / 5 [thorough]; reduced alphabet at length 5 / 6), exhaustive character strings over 16 characters to length 5 / 6, random well-formed texts with every alias spelling and their token-level mutations (delete / duplicate / swap / replace / insert / drop a bracket / truncate), splices, soups, a curated Unicode set. distinct = text; non-trivial = >= 3 tokens and either accepted, or rejected by the reference only after >= 2 tokens were consumed.".into(),
+        rule: "exhaustive token sequences (full 33-kind alphabet to length 4 [quick] / 5 [thorough]; reduced alphabet at length 5 / 6), exhaustive character strings over 16 characters to length 5 / 6, random well-formed texts with every alias spelling and their token-level mutations (delete / duplicate / swap / replace / insert / drop a bracket / truncate), splices, soups, a curated Unicode set, and texts of 8-60 KiB (padding by comments / whitespace / separator lines before, inside and after a formula). distinct = text; non-trivial = >= 3 tokens and either accepted, or rejected by the reference only after >= 2 tokens were consumed.".into(),
         assumptions: vec![
             "the reference grammar is DESIGN.md 2.1/2.2 (written from README + property statement); `\\w` / `\\d` are the regex crate's Unicode classes".into(),
             "a digit run that is not an ASCII number fitting the machine integer must be rejected".into(),
@@ -261,6 +283,7 @@ pub fn run(ctx: &Ctx) -> (Stats, Spec) {
             ("rejected_after_two_or_more_tokens".into(), 50_000, "too few interesting negatives".into()),
             ("token_lists_compared".into(), 100_000, "token lists hardly compared".into()),
             ("mutated_texts".into(), 10_000, "mutations not exercised".into()),
+            ("large_texts".into(), 50, "texts beyond 8 KiB not exercised".into()),
         ],
     };
     (st, spec)
